@@ -14,6 +14,7 @@ answers 503 exactly while the flag is down, and the request path recovers by its
 was mined meanwhile; a failed block download keeps the progress made.
 -/
 import TeosVerif.Model.Outage
+import TeosVerif.Lemmas.OutageInv
 namespace Teos.C12
 open Teos.Outage
 
@@ -184,5 +185,30 @@ theorem poll_partial_progress_kept (s : St) (rest : List Bool) (hp : s.pending =
   cases rest with
   | nil => simp [step, hc, hn, deliver, hp, hf, apiHoldsCache, ha]
   | cons d r => simp [step, hc, hn, deliver, hp, hf, apiHoldsCache, ha]
+
+
+/-! ### every reachable state of the protocol model: a noticed outage is a flagged outage (`Lemmas/OutageInv`) -/
+
+/-- **outage_noticed_means_flag_down**: in every state the protocol model reaches, by ANY sequence of acts (node down /
+up / behind, RPC interface failing at any later call, blocks mined, block downloads failing, API requests started and
+run, polls, probes), a thread parked in the carrier's wait — on the request path or inside block processing — implies
+that the reachability flag is down, i.e. the public API answers `service unavailable` (with `api_503_iff_flag_down`):
+from the moment the tower has noticed the outage it takes on no new work. -/
+theorem outage_noticed_means_flag_down (acts : List Act) :
+    let s := acts.foldl step ({} : St)
+    (s.api = .wait → apiStatus s = 503) ∧ (s.chain = .wait → apiStatus s = 503) := by
+  have h : ∀ (acts : List Act) (s0 : St), NoticedB s0 → NoticedB (acts.foldl step s0) := by
+    intro acts
+    induction acts with
+    | nil => intro s0 h; exact h
+    | cons a rest ih => intro s0 h; exact ih _ (noticedB_step s0 a h)
+  have h0 : NoticedB ({} : St) := ⟨⟨fun ha => (by cases ha), fun hw => (by cases hw)⟩, by decide⟩
+  obtain ⟨⟨n1, n2⟩, _⟩ := h acts _ h0
+  exact ⟨fun ha => (api_503_iff_flag_down _).mpr (n1 ha), fun hw => (api_503_iff_flag_down _).mpr (n2 hw)⟩
+
+/-- non-vacuity: both premises are reachable -/
+example :
+    (([Act.nodeDown, .apiStart, .apiRun].foldl step ({} : St)).api = .wait) ∧
+    (([Act.mine true, .rpcDownAfter 0, .poll].foldl step ({} : St)).chain = .wait) := by decide
 
 end Teos.C12
